@@ -55,6 +55,8 @@ F_QR = 'C05-RESULT-CACHE-ALIASES-QUERYRESULT-LIST'
 F_RAWDML = 'C05-RESULT-CACHE-SURVIVES-RAW-DML'
 
 C05_THRESH = 30          # module global read by a function that is called inside queries
+C05_EQ = None             # module global read by hybrid methods / properties of the entities (value AND type change)
+GLOBAL_DEFAULTS = {'C05_THRESH': 30, 'C05_EQ': None}
 
 
 def older_than_thresh(p):
@@ -129,6 +131,10 @@ def define_db(orm, which):
             score = orm.Optional(float)
             born = orm.Optional(datetime.date)
             group = orm.Optional(Group)
+            def opt_is(self): return self.score == C05_EQ            # hybrid method reading a module global
+            @property
+            def opt_matches(self): return self.score == C05_EQ       # hybrid property reading a module global
+            def older(self): return self.age > C05_THRESH
     else:
         class Group(db.Entity):
             id = orm.PrimaryKey(int)
@@ -141,6 +147,10 @@ def define_db(orm, which):
             nick = orm.Optional(int)
             age = orm.Required(int)
             group = orm.Optional(Group)
+            def opt_is(self): return self.nick == C05_EQ
+            @property
+            def opt_matches(self): return self.nick == C05_EQ
+            def older(self): return self.age > C05_THRESH
     return db
 
 
@@ -201,6 +211,10 @@ def make_funcs():
         q = select(p for p in E.Person if p.age > x)
         return select(z for z in q if z.age < y)
     def func_global(E): return select(p for p in E.Person if older_than_thresh(p))
+    def hyb_method(E): return select(p for p in E.Person if p.opt_is())
+    def hyb_method_ids(E): return select(p.id for p in E.Person if p.opt_is() and p.older())
+    def hyb_prop(E): return E.Person.select(lambda p: p.opt_matches)
+    def hyb_prop_param(E, x): return select(p for p in E.Person if p.opt_matches or p.age > x)
     def concat(E, s): return select(p.name + s for p in E.Person)
     def cnt_by_group(E, x): return select((p.group, count(p)) for p in E.Person if p.age > x)
     def raw_frag(E, x): return select(p for p in E.Person if raw_sql('p.age > $x'))
@@ -357,6 +371,7 @@ def apply_post(env, q, post, E):
     if kind == 'ordered': return 'O', norm(q.order_by(1)[:])
     if kind == 'ordered_attr': return 'O', norm(q.order_by(E.Person.id)[:])
     if kind == 'slice': return 'O', norm(q.order_by(1)[post[1]:post[2]])
+    if kind == 'slice_ids': return 'O', norm(q[post[1]:post[2]])
     if kind == 'slice_unordered': return 'N', len(q[post[1]:post[2]])
     if kind == 'page': return 'O', norm(q.order_by(1).page(post[1], post[2]))
     if kind == 'limit': return 'O', norm(list(q.order_by(1).limit(post[1], offset=post[2])))
@@ -465,6 +480,20 @@ def exec_step(env, step):
             if step['form'] == 'iter': q = orm.select(x for x in src if x.age < y)
             else: q = orm.select(p for p in env.db[step['db']].Person if p in src and p.age < y)
             return ('ok', 'O', norm(q.order_by(1)[:]))
+        if k == 'dyn':
+            # a query whose code object is created now (compile/eval) and dies with this step
+            db = env.db[step['db']]
+            ns = {'Person': db.Person, 'Group': db.Group}
+            ns.update((n, dec(env, v)) for n, v in step.get('locals', {}).items())
+            obj = eval(compile(step['src'], '<dyn %d>' % (hash(step['src']) % 1000), 'eval'), ns)
+            if step['form'] == 'gen': q = orm.select(obj)
+            elif step['form'] == 'lambda': q = db.Person.select(obj)
+            elif step['form'] == 'filter': q = db.Person.select().filter(obj)
+            else: q = db.Person.select().order_by(obj)
+            del obj
+            tag, val = apply_post(env, q, step['post'], db)
+            del q
+            return ('ok', tag, val)
         if k == 'strq':
             db = env.db[step['db']]
             g = {'Person': db.Person, 'Group': db.Group}
@@ -527,7 +556,7 @@ def exec_step(env, step):
         if k == 'commit':
             orm.commit(); env.committed = True; return ('ok', 'O', 'committed')
         if k == 'set_global':
-            globals()['C05_THRESH'] = dec(env, step['val'])
+            globals()[step.get('name', 'C05_THRESH')] = dec(env, step['val'])
             return ('ok', 'O', 'global-set')
         raise HarnessError(k)
     except HarnessError: raise
@@ -535,7 +564,7 @@ def exec_step(env, step):
         return ('exc', type(ex).__name__)
 
 
-SIDE_EFFECT_FREE = ('chain', 'strq', 'entity_api', 'raw', 'adapt', 'qr_read', 'qr_query', 'qr_make')
+SIDE_EFFECT_FREE = ('chain', 'strq', 'dyn', 'entity_api', 'raw', 'adapt', 'qr_read', 'qr_query', 'qr_make')
 
 
 def canon(res):
@@ -706,6 +735,10 @@ QF = [
     ('in_subq', [('int', 'str', 'float')], False, True),
     ('over_query', [('int',), ('int', 'float')], False, True),
     ('func_global', [], False, True),
+    ('hyb_method', [], False, True),
+    ('hyb_method_ids', [], True, False),
+    ('hyb_prop', [], False, True),
+    ('hyb_prop_param', [('int', 'float')], False, True),
     ('concat', [('str', 'str', 'int', 'none')], False, False),
     ('cnt_by_group', [('int',)], False, False),
     ('raw_frag', [('int', 'float', 'str')], False, True),
@@ -789,9 +822,28 @@ RAW_TEXTS = [
 ]
 
 
+DYN_OPS = ('>', '<', '>=', '<=', '==', '!=')
+
+def g_dyn(rng, db=None):
+    """Source of a generator expression / lambda drawn from small families whose members compile to byte code of the
+    same size (only an operator, an attribute name of equal length or a constant differs)."""
+    if db is None: db = 1 if rng.random() < 0.85 else 2
+    fam = rng.randrange(7)
+    op, n = rng.choice(DYN_OPS), rng.choice((17, 20, 25, 30, 31, 40, 50))
+    if fam == 0: src, form = '(p.%s for p in Person if p.age %s %d)' % (rng.choice(('name', 'nick')), op, n), 'gen'
+    elif fam == 1: src, form = '(p for p in Person if p.age %s %d)' % (op, n), 'gen'
+    elif fam == 2: src, form = '(p.id for p in Person if p.name %s %r)' % (rng.choice(('==', '!=', '>=', '<=')), rng.choice(('Ann', 'Bob', 'Cid', 'Eve'))), 'gen'
+    elif fam == 3: src, form = 'lambda p: p.age %s %d' % (op, n), rng.choice(('lambda', 'filter'))
+    elif fam == 4: src, form = '(p.id for p in Person if p.age %s x)' % op, 'gen'
+    elif fam == 5: src, form = '((p.id, p.%s) for p in Person if p.id %s %d)' % (rng.choice(('name', 'nick')), op, rng.choice((3, 5, 8))), 'gen'
+    else: src, form = 'lambda p: p.%s' % rng.choice(('age', 'id')), 'order'
+    st = {'k': 'dyn', 'db': db, 'src': src, 'form': form, 'locals': {'x': rng.choice((17, 25, 31))} if fam == 4 else {},
+          'post': list(rng.choice((['all'], ['all'], ['count'], ['iter']))) if form != 'order' else ['slice_ids', 0, 4]}
+    return st
+
 def g_themed(rng):
     """Short histories aimed at one cache-key hazard each (mixed into the random ones)."""
-    theme = rng.choice(('qr', 'rawdml', 'result', 'result', 'types', 'types', 'limits', 'two_db', 'extr', 'adapt', 'global', 'shared', 'kwnone', 'rawfrag', 'aggr', 'aggr'))
+    theme = rng.choice(('qr', 'rawdml', 'result', 'result', 'types', 'types', 'limits', 'two_db', 'extr', 'adapt', 'global', 'shared', 'kwnone', 'rawfrag', 'aggr', 'aggr', 'dyn', 'dyn', 'hybrid', 'hybrid'))
     J = lambda x: json.loads(json.dumps(x))
     steps = []
     if theme == 'qr':
@@ -914,6 +966,22 @@ def g_themed(rng):
             steps.append(st)
             if rng.random() < 0.15:
                 steps.append({'k': 'set', 'db': db, 'pk': rng.choice((1, 2, 3)), 'attr': 'age', 'val': rng.choice((31, 40, 99))})
+    elif theme == 'dyn':
+        for _ in range(rng.randrange(8, 16)): steps.append(g_dyn(rng, db=1 if rng.random() < 0.9 else 2))
+    elif theme == 'hybrid':
+        db = rng.choice((1, 1, 2))
+        fn = rng.choice(('hyb_method', 'hyb_method', 'hyb_method_ids', 'hyb_prop', 'hyb_prop_param'))
+        spec = next(z for z in QF if z[0] == fn)
+        q = {'k': 'chain', 'db': db, 'fn': fn, 'args': [40] if fn == 'hyb_prop_param' else [], 'ops': [],
+             'post': list(rng.choice((['ordered'], ['count'], ['all'], ['exists']))) if spec[3] else list(rng.choice((['all'], ['count'], ['aggr', None, 'count', {'distinct': False}])))}
+        steps = [q]
+        vals = [None, 2.5, 1.5, None, 7.25] if db == 1 else [None, 5, 7, None, 1]
+        for _ in range(rng.randrange(3, 7)):
+            if rng.random() < 0.8: steps.append({'k': 'set_global', 'name': 'C05_EQ', 'val': rng.choice(vals)})
+            else: steps.append({'k': 'set_global', 'name': 'C05_THRESH', 'val': rng.choice((18, 30, 40.5))})
+            steps.append(J(q))
+            if rng.random() < 0.3:
+                q2 = J(q); q2['post'] = ['count']; steps.append(q2)
     elif theme == 'global':
         q = {'k': 'chain', 'db': rng.choice((1, 1, 2)), 'fn': 'func_global', 'args': [], 'ops': [], 'post': list(rng.choice((['ordered'], ['count'], ['all'])))}
         steps = [q]
@@ -984,6 +1052,8 @@ def g_history(rng):
                 if c < 0.3 and not results[ri][1]: steps.append({'k': 'qr_mutate', 'res': ri, 'op': rng.choice(('reverse', 'sort_desc'))})
                 elif c < 0.6: steps.append({'k': 'qr_read', 'res': ri})
                 else: steps.append({'k': 'qr_query', 'res': ri, 'db': results[ri][0], 'y': rng.choice(INTS), 'form': rng.choice(('iter', 'in'))})
+            elif r < 0.63:
+                st = g_dyn(rng); steps.append(st); recent.append(st)
             elif r < 0.67:
                 text, mk = rng.choice(STRQ_TEXTS)
                 db = rng.choice((1, 2))
@@ -1021,7 +1091,8 @@ def g_history(rng):
                 elif c < 0.78: steps.append({'k': 'delete', 'db': db, 'pk': rng.choice((7, 8))})
                 elif c < 0.84: steps.append({'k': 'bulk_delete', 'db': db, 'x': rng.choice((60, 80))})
                 elif c < 0.92: steps.append({'k': 'raw_dml', 'db': db, 'sql': 'update Person set age = $a where id = $k', 'locals': {'a': rng.choice(INTS), 'k': rng.choice((9, 10, 11))}})
-                else: steps.append({'k': 'set_global', 'val': rng.choice((18, 30, 40, 30.5))})
+                elif rng.random() < 0.5: steps.append({'k': 'set_global', 'val': rng.choice((18, 30, 40, 30.5))})
+                else: steps.append({'k': 'set_global', 'name': 'C05_EQ', 'val': rng.choice((None, 2.5, 5, 1.5, None))})
                 if rng.random() < 0.5 and recent:
                     steps.append(json.loads(json.dumps(rng.choice(recent[-5:]))))      # re-run a recent query right after the change
             elif r < 0.97: steps.append({'k': 'flush'})
@@ -1038,7 +1109,7 @@ def run_history(ctx, env, sessions, cold, globals_caches, on_step=None):
     """Execute; -> list (per session) of lists of canonical results."""
     orm = env.orm
     out = []
-    globals()['C05_THRESH'] = 30
+    globals().update(GLOBAL_DEFAULTS)
     committed = False
     for si, steps in enumerate(sessions):
         res = []
@@ -1064,7 +1135,7 @@ def run_history(ctx, env, sessions, cold, globals_caches, on_step=None):
         out.append(res)
     if committed:
         for which in (1, 2): sqlite_restore(env.path[which], env.pristine[which])
-    globals()['C05_THRESH'] = 30
+    globals().update(GLOBAL_DEFAULTS)
     return out
 
 
